@@ -128,8 +128,11 @@ def run(S, tier, rep):
             for n in ast.walk(node):
                 if isinstance(n, ast.For) and any(isinstance(x, ast.AugAssign) for x in ast.walk(n)):
                     it = ast.unparse(n.iter)
-                    if not it.startswith("range("):
+                    fn_name = ast.unparse(n.iter.func).split(".")[-1] if isinstance(n.iter, ast.Call) else None
+                    if fn_name == "prange":
                         bad = "accumulation loop iterates over %s" % it
+                    elif fn_name is not None and fn_name not in ("range", "enumerate", "zip", "reversed", "arange", "sorted", "list"):
+                        raise Unsupported("accumulation loop of %s iterates over %s: not a known serial or parallel iterator" % (name, it))
         rep.ob("C15.c", "%s:%s" % (mod.split(".")[-1], name), bad is None, bad or ("serial range loop with +=" if accumulates else "serial @njit"),
                key="C15.c|%s|%s|%s" % (mod, name, bad), nontrivial=accumulates)
     rep.require_min("C15.a", 63)
